@@ -45,7 +45,7 @@ def run_value_case(case, itype_filter=None, extra_monitors=None):
     if not forms:
         return {"verdict": INCONCLUSIVE, "why": "recipe has no forms"}
     compile_error = None
-    stage = M.StageMonitors() if case.get("stage_monitors") else None
+    stage = M.StageMonitors(complex_values="complex" in str((options or {}).get("scalar_type", ""))) if case.get("stage_monitors") else None
     try:
         with M.table_delta() as td:
             if stage:
